@@ -89,6 +89,15 @@ class NarwhalsMaterializer(FormulaMaterializer):
         values = self._as_numerical_column(values)
         if drop_rows:
             values = drop_nulls(values, indices=drop_rows)
+        if (
+            nw.dependencies.is_narwhals_series(values)
+            and values.dtype == nw.Boolean
+            and values.null_count()
+        ):
+            # Nullable booleans with missing values would otherwise become
+            # object arrays holding nulls; missing values are NaN, as for the
+            # nullable integer and float dtypes.
+            values = values.cast(nw.Float64)
         if spec.output == "sparse":
             array = numpy.array(values)
             if array.dtype == numpy.float16:
